@@ -1,7 +1,7 @@
 (* C13 — Every request gets exactly one terminal outcome with the matching payload.
    Pinned theorem statements; the proofs are in Proofs.v. *)
 From Coq Require Import List NArith Bool.
-From V.C13 Require Import Model Proofs.
+From V.C13 Require Import Model Proofs Flush.
 Import ListNotations.
 Open Scope N_scope.
 
@@ -47,6 +47,50 @@ Theorem C13_exactly_one_contract :
     terms r (snd res) = 1%nat \/ In r (cancel_reqs evs).
 Proof. exact exactly_one_contract. Qed.
 Print Assumptions C13_exactly_one_contract.
+
+(* Exactly one WITHOUT a premise on the final state.  Take any history whatsoever (any stimuli, any
+   dial results, faults, races).  Let the environment then discharge what it owes by its own books
+   — flush_evs: a DialFailure for every peer whose dial it accepted and has not answered, a
+   ConnectionClosed for every connection it reported, and more than twice the request timeout
+   passes.  Then every send_request of the history has produced exactly one terminal event carrying
+   its id, unless the user asked to cancel it.  A request that the protocol parked although the
+   environment owes nothing for it (e.g. behind a dial that was refused) would have no event:
+   the theorem rules that out.  The harness ends most histories with exactly these stimuli and
+   the oracle checks exactly this on the implementation's trace. *)
+Theorem C13_exactly_one_flushed :
+  forall (cf : cfg) (evs : list ev) (r : N),
+    0 < tmo cf ->
+    let g := grun cf g0 (run_steps cf (init_pst, init_env) evs) in
+    let res := run cf (init_pst, init_env) (evs ++ flush_evs cf g) in
+    In (OSent r) (snd res) ->
+    terms r (snd res) = 1%nat \/ In r (cancel_reqs evs).
+Proof. exact exactly_one_flush_evs. Qed.
+Print Assumptions C13_exactly_one_flushed.
+
+(* The discharge itself, for any lists covering the ledger and any advance beyond the timeout:
+   after ANY history followed by these stimuli the environment owes nothing. *)
+Theorem C13_flush_discharges :
+  forall (cf : cfg) (evs : list ev) (ds cs : list N) (dt : N),
+    0 < tmo cf -> tmo cf < dt ->
+    let g := grun cf g0 (run_steps cf (init_pst, init_env) evs) in
+    (forall p, In p (g_dials g) -> In p ds) -> (forall p, In p (g_conn g) -> In p cs) ->
+    discharged (grun cf g0 (run_steps cf (init_pst, init_env) (evs ++ flush_of ds cs dt))).
+Proof. exact flush_discharges. Qed.
+Print Assumptions C13_flush_discharges.
+
+(* Ledger invariant behind it: every accepted, unanswered open_substream of the environment's
+   ledger is on a connection the ledger has (so closing the connections answers every open). *)
+Theorem C13_opens_on_connections :
+  forall (cf : cfg) (evs : list ev) (sid p : N),
+    0 < tmo cf ->
+    let g := grun cf g0 (run_steps cf (init_pst, init_env) evs) in
+    In (sid, p) (g_opens g) -> In p (g_conn g).
+Proof.
+  intros cf evs sid p T g H.
+  destruct (run_GI_OP cf evs init_pst init_env g0 [] T (GI_init cf) Inv_init OP_init) as (_ & O & _).
+  rewrite grun_from_ghost in O. exact (O (sid, p) H).
+Qed.
+Print Assumptions C13_opens_on_connections.
 
 (* The same under the weaker-looking premise "nothing is owed" (pending_dials and every
    peers[..].active empty); quiescent implies settled (Proofs.quiescent_settled). *)
@@ -148,17 +192,60 @@ Theorem C13_channel_nothing_lost :
 Proof. exact relay_nothing_lost. Qed.
 Print Assumptions C13_channel_nothing_lost.
 
-(* dial() refused at once (NoAddressAvailable, TriedToDialSelf, TaskClosed, ...): the request
-   gets its single RequestFailed(Rejected(DialFailed(Some(_)))) in the same step and is queued
-   nowhere. *)
+(* dial() refused at once, for EVERY refusal: dres is the result of TransportService::dial, an
+   arbitrary choice of the environment; every code other than the two Ok flavours (D_OK, D_INPROGRESS)
+   — TriedToDialSelf, AlreadyConnected, NoAddressAvailable, TaskClosed, ChannelClogged,
+   PeerIdMissing, or anything else — gives the request its single
+   RequestFailed(Rejected(DialFailed(Some(variant)))) in the same step, and the request is parked
+   nowhere (not behind a dial, not active at a peer, no substream being opened, no future). *)
 Theorem C13_dial_refused_one_failure :
-  forall (s : pst) (p len tag : N) fb (ok : bool) (sid : N),
-    memN p (peers s) = false ->
-    snd (h_send s p true len tag fb ok false sid) = [OSent (next_rid s); OFail (next_rid s) E_DIAL_IMMEDIATE] /\
-    dials (fst (h_send s p true len tag fb ok false sid)) = dials s /\
-    active (fst (h_send s p true len tag fb ok false sid)) = active s.
+  forall (s : pst) (p len tag : N) fb (ok : bool) (dres sid : N),
+    memN p (peers s) = false -> dial_accepted dres = false ->
+    let r := h_send s p true len tag fb ok dres sid in
+    snd r = [OSent (next_rid s); OFail (next_rid s) (E_DIAL_IMM dres)] /\
+    dials (fst r) = dials s /\ active (fst r) = active s /\ pouts (fst r) = pouts s /\ futs (fst r) = futs s.
 Proof. exact dial_refused_one_failure. Qed.
 Print Assumptions C13_dial_refused_one_failure.
+
+(* The same for a step of the whole system, whatever the environment is at that moment (the
+   manager's belief about the peer — it may lag behind or run ahead of what the protocol was told —,
+   a clogged or closed command channel, the local peer id): send_request with DialOptions::Dial to
+   a peer the protocol does not know EITHER parks the request behind a dial the environment
+   accepted (ghost call ODial: the environment now owes ConnectionEstablished or DialFailure) OR
+   fails it at once with the dial error and parks it nowhere. *)
+Theorem C13_send_dial_step :
+  forall (cf : cfg) (s : pst) (en : env) (p len tag : N) fb,
+    memN p (peers s) = false ->
+    let r := step cf (s, en) (ESend p true len tag fb) in
+    let rid := next_rid s in
+    (dial_accepted (dial_res cf en p) = true /\ snd (fst r) = [OSent rid; ODial p] /\
+     dials (fst (fst (fst r))) = dials s ++ [(p, mkReq rid len tag fb)]) \/
+    (dial_accepted (dial_res cf en p) = false /\
+     snd (fst r) = [OSent rid; OFail rid (E_DIAL_IMM (dial_res cf en p))] /\
+     dials (fst (fst (fst r))) = dials s /\ active (fst (fst (fst r))) = active s /\
+     pouts (fst (fst (fst r))) = pouts s /\ futs (fst (fst (fst r))) = futs s).
+Proof. exact send_dial_step. Qed.
+Print Assumptions C13_send_dial_step.
+
+(* The environment's answer to dial(), in the order of the checks of TransportManagerHandle::dial:
+   own peer id; unknown peer or empty address store; connected; a dial in progress (Dialing, Opening,
+   Disconnected with a dial record); else the command goes to the manager — TaskClosed when the
+   manager is gone, ChannelClogged when its command channel is full, Ok otherwise. *)
+Theorem C13_dial_res_cases :
+  forall (cf : cfg) (en : env) (p : N),
+    let r := dial_res cf en p in
+    (r = D_SELF /\ selfp cf && (p =? SELF_PEER) = true) \/
+    (selfp cf && (p =? SELF_PEER) = false /\
+     ((r = D_NOADDR /\ (mview cf en p = 0 \/ mview cf en p = 4)) \/
+      (r = D_CONNECTED /\ mview cf en p = 2) \/
+      (r = D_INPROGRESS /\ (mview cf en p = 3 \/ mview cf en p = 5 \/ mview cf en p = 6)) \/
+      (mview cf en p <> 0 /\ mview cf en p <> 2 /\ mview cf en p <> 3 /\ mview cf en p <> 4 /\
+       mview cf en p <> 5 /\ mview cf en p <> 6 /\
+       ((r = D_TASKCLOSED /\ mgr en = false) \/
+        (r = D_CLOGGED /\ mgr en = true /\ a_clog (aux_of en) = true) \/
+        (r = D_OK /\ mgr en = true /\ a_clog (aux_of en) = false))))).
+Proof. exact dial_res_cases. Qed.
+Print Assumptions C13_dial_res_cases.
 
 (* F-C13a on the unrepaired handler: two requests to peer 0 while it is being dialed, then the
    connection is established. Request 0 was handed out, is owed nowhere, was never answered and
@@ -196,6 +283,27 @@ Example demo_partial_open :
   filter (fun x => match x with OFail _ _ => true | _ => false end) (snd res)
     = [OFail 2 E_SUBSTREAM; OFail 0 E_CONN_CLOSED; OFail 1 E_CONN_CLOSED] /\
   quiescent (fst (fst res)).
+Proof. vm_compute. repeat split. Qed.
+
+(* Non-vacuity of the refused dial (the scenario of the third seeded change): the connection is
+   reported, the manager believes the peer connected, the protocol is told ConnectionClosed while
+   the manager lags behind; a request with DialOptions::Dial gets AlreadyConnected from dial() and
+   fails at once with that error; nothing is parked, and after the flush nothing is owed.  Second
+   history: the connection is reported with a dead command channel, no substream can be opened
+   for the request waiting for the dial, the peer is not registered although the manager has
+   the connection; the next Dial request fails at once with AlreadyConnected as well. *)
+Example demo_already_connected :
+  let cf := mkCfg None 4 16 5000 false in
+  let evs := [EEstablished 0 false 0; EMgrPeer 0 2; EClosed 0; ESend 0 true 3 10 None; EMgrPeer 0 1] in
+  let g := grun cf g0 (run_steps cf (init_pst, init_env) evs) in
+  let res := run cf (init_pst, init_env) (evs ++ flush_evs cf g) in
+  snd res = [OSent 0; OFail 0 (E_DIAL_IMM D_CONNECTED)] /\ dials (fst (fst res)) = [] /\
+  let evs2 := [ESend 0 true 3 10 None; EEstablished 0 true 0; EMgrPeer 0 2; ESend 0 true 2 20 None] in
+  let g2 := grun cf g0 (run_steps cf (init_pst, init_env) evs2) in
+  let res2 := run cf (init_pst, init_env) (evs2 ++ flush_evs cf g2) in
+  filter (fun x => match x with OFail _ _ => true | _ => false end) (snd res2)
+    = [OFail 0 E_SUBSTREAM; OFail 1 (E_DIAL_IMM D_CONNECTED)] /\
+  peers (fst (fst res2)) = [] /\ dials (fst (fst res2)) = [].
 Proof. vm_compute. repeat split. Qed.
 
 (* Non-vacuity of the contract premise: after the demo dialogue the environment owes nothing;
